@@ -236,12 +236,66 @@ func ruleAssignFootprint(c *Ctx, rule string) {
 
 func ruleP2(c *Ctx, rule string) {
 	r := c.R
-	fn := c.libFunc("CandidateNode.UpdateAttributesFrom")
-	if fn == nil {
+	root := c.libFunc("CandidateNode.UpdateAttributesFrom")
+	if root == nil {
 		r.Fatal("anchor missing: UpdateAttributesFrom")
 		return
 	}
-	n, other := fn.Params[0], fn.Params[1]
+	// UpdateAttributesFrom itself and the module helpers it hands both nodes to
+	// (a helper that receives the target and the new value is judged like the body)
+	type target struct {
+		fn       *ssa.Function
+		n, other *ssa.Parameter
+	}
+	targets := []target{{root, root.Params[0], root.Params[1]}}
+	eachInstr(root, func(ins ssa.Instruction) {
+		call, ok := ins.(*ssa.Call)
+		if !ok {
+			return
+		}
+		h := call.Call.StaticCallee()
+		if h == nil || h.Blocks == nil || h == root || !strings.HasPrefix(funcKey(h), "yqlib.") {
+			return
+		}
+		var hn, ho *ssa.Parameter
+		for i, a := range call.Call.Args {
+			if i >= len(h.Params) {
+				break
+			}
+			if a == ssa.Value(root.Params[0]) {
+				hn = h.Params[i]
+			}
+			if a == ssa.Value(root.Params[1]) {
+				ho = h.Params[i]
+			}
+		}
+		// only helpers reached unconditionally are folded in: a conditional call would hide a guard
+		if hn != nil && ho != nil && call.Block() != nil && blockAlwaysRuns(root, call.Block()) {
+			targets = append(targets, target{h, hn, ho})
+		}
+	})
+	for _, t := range targets {
+		ruleP2In(c, rule, t.fn, t.n, t.other)
+	}
+}
+
+// blockAlwaysRuns: b is on every path from entry to every return that b can reach… approximated by: b dominates every return block reachable from it and is not inside a loop.
+func blockAlwaysRuns(fn *ssa.Function, b *ssa.BasicBlock) bool {
+	for _, rb := range fn.Blocks {
+		if _, isRet := rb.Instrs[len(rb.Instrs)-1].(*ssa.Return); isRet {
+			if !b.Dominates(rb) {
+				// a return that does not pass b: acceptable only if it is an early exit before b (b unreachable from it anyway)
+				if pathAvoiding(fn, fn.Blocks[0], 0, rb, len(rb.Instrs)-1, func(ssa.Instruction) bool { return false }) && reaches(b, rb) {
+					return false
+				}
+			}
+		}
+	}
+	return true
+}
+
+func ruleP2In(c *Ctx, rule string, fn *ssa.Function, n, other *ssa.Parameter) {
+	r := c.R
 	loadOf := func(v ssa.Value, base ssa.Value, field string) bool {
 		u, ok := v.(*ssa.UnOp)
 		if !ok || u.Op != token.MUL {
@@ -987,29 +1041,111 @@ func ruleU6(c *Ctx, rule string) {
 			}
 			n++
 			key := name + "/" + cn + "(first result)"
-			// arg 1: typeassert(load(&el.Value)) with el = Front() call (not a phi advanced by Next)
-			v := call.Call.Args[1]
-			if ta, ok := v.(*ssa.TypeAssert); ok {
-				v = ta.X
-			}
-			var el ssa.Value
-			if u, ok := v.(*ssa.UnOp); ok {
-				if fa, ok := u.X.(*ssa.FieldAddr); ok && fieldName(fa) == "Value" {
-					el = fa.X
-				}
-			}
-			isFront := false
-			if ec, ok := el.(*ssa.Call); ok {
-				isFront = calleeName(&ec.Call) == "(*container/list.List).Front"
-			}
-			if isFront {
+			switch firstResultKind(call.Call.Args[1], 0) {
+			case "first":
 				r.Discharge(rule, key, c.P.pos(call.Pos()), "the target is updated once, from the first result of the right-hand side")
-			} else {
-				r.Finding(rule, key, c.P.pos(call.Pos()), "the target is updated from a value that is not `rhs.MatchingNodes.Front()` (a loop over all results makes the last one win): `p |= f` must give each match the FIRST result of f")
+			case "loop":
+				r.Finding(rule, key, c.P.pos(call.Pos()), "the target is updated from a loop variable running over the results of the right-hand side (the last one wins): `p |= f` must give each match the FIRST result of f")
+			default:
+				r.Undecided(rule, key, c.P.pos(call.Pos()), "the value handed to "+cn+" is neither the element returned by Front() (directly or through a helper) nor a loop variable over the results: shape not recognised")
 			}
 		})
 		if n == 0 {
 			r.Note("%s: %s no longer calls UpdateFrom/UpdateAttributesFrom directly", rule, name)
 		}
 	}
+}
+
+// firstResultKind classifies a node value: "first" when it is the Value of the
+// element returned by List.Front() — directly, or as the result of a module
+// helper all of whose non-nil returns are that —, "loop" when it is the Value
+// of an element advanced by Next()/Prev(), "" otherwise.
+func firstResultKind(v ssa.Value, d int) string {
+	if d > 4 {
+		return ""
+	}
+	if ta, ok := v.(*ssa.TypeAssert); ok {
+		v = ta.X
+	}
+	switch x := v.(type) {
+	case *ssa.UnOp:
+		if fa, ok := x.X.(*ssa.FieldAddr); ok && fieldName(fa) == "Value" {
+			return elementKind(fa.X, 0)
+		}
+	case *ssa.Extract:
+		call, ok := x.Tuple.(*ssa.Call)
+		if !ok {
+			return ""
+		}
+		return helperResultKind(call, x.Index, d)
+	case *ssa.Call:
+		return helperResultKind(x, 0, d)
+	case *ssa.Phi:
+		kind := ""
+		for _, e := range x.Edges {
+			if c, isC := e.(*ssa.Const); isC && c.IsNil() {
+				continue
+			}
+			k := firstResultKind(e, d+1)
+			if k == "loop" || k == "" {
+				return k
+			}
+			kind = k
+		}
+		return kind
+	}
+	return ""
+}
+
+func helperResultKind(call *ssa.Call, idx int, d int) string {
+	h := call.Call.StaticCallee()
+	if h == nil || h.Blocks == nil {
+		return ""
+	}
+	kind := ""
+	for _, b := range h.Blocks {
+		ret, ok := b.Instrs[len(b.Instrs)-1].(*ssa.Return)
+		if !ok || idx >= len(ret.Results) {
+			continue
+		}
+		if c, isC := ret.Results[idx].(*ssa.Const); isC && c.IsNil() {
+			continue
+		}
+		k := firstResultKind(ret.Results[idx], d+1)
+		if k != "first" {
+			return k
+		}
+		kind = k
+	}
+	return kind
+}
+
+// elementKind: a *list.Element value: from Front() ("first") or advanced by Next/Prev ("loop").
+func elementKind(el ssa.Value, d int) string {
+	if d > 4 {
+		return ""
+	}
+	switch x := el.(type) {
+	case *ssa.Call:
+		switch calleeName(&x.Call) {
+		case "(*container/list.List).Front":
+			return "first"
+		case "(*container/list.Element).Next", "(*container/list.Element).Prev", "(*container/list.List).Back":
+			return "loop"
+		}
+	case *ssa.Phi:
+		kind := ""
+		for _, e := range x.Edges {
+			k := elementKind(e, d+1)
+			if k == "loop" {
+				return "loop"
+			}
+			if k == "" {
+				return ""
+			}
+			kind = k
+		}
+		return kind
+	}
+	return ""
 }
